@@ -64,10 +64,10 @@ Hypothesis Hg : guard g = true.
 Lemma sock_close_some c : h c = true ->
   exists c' b, sock_close c = Some (c', b) /\ h c' = true /\ cp c' = cp c /\ topen c' = false /\ tclosing c' = (tclosing c || (topen c && unacked c)) /\
                (b = true -> disc c' = true /\ topen c = true) /\ (b = false -> disc c' = disc c) /\
-               (disc c = true -> disc c' = true) /\ (topen c = false -> b = false).
+               (disc c = true -> disc c' = true) /\ (topen c = false -> b = false) /\ owned c' = owned c.
 Proof.
   intros Hh. unfold sock_close. rewrite Hh. cbn.
-  destruct c as [h0 ho se go ro sv cp0 cl to tc ua di wr pl]. cbn in *.
+  destruct c as [h0 ho se go ro sv cp0 cl to tc ua di wr pl ow]. cbn in *.
   destruct to, ua; cbn; fin; cbn; try reflexivity; try (intros; discriminate); try (intros; assumption);
     try (intros; split; reflexivity); try (rewrite orb_false_r; reflexivity); try (rewrite orb_true_r; reflexivity); auto.
 Qed.
@@ -78,12 +78,12 @@ Lemma finished_closed_ok i c q :
   (disc c = true \/ h c = false) ->
   (h c = false -> topen c = false) -> (tclosing c = true -> topen c = false) ->
   exists c' q', finished_closed g i c q = Some (c', q') /\ cp c' = CStop /\ h c' = h c /\ disc c' = disc c /\ topen c' = false /\
-                In (EvDelC i) q' /\ grows q q' /\ (tclosing c' = true -> topen c' = false).
+                In (EvDelC i) q' /\ grows q q' /\ (tclosing c' = true -> topen c' = false) /\ owned c' = owned c.
 Proof.
   intros Ht Ha Hd Hht Htc. unfold finished_closed. rewrite Hg. cbn [andb h set_cp].
   destruct (h c) eqn:Hh.
   - cbn [negb]. destruct Ht as [Ht | Ht]; [discriminate|].
-    destruct (sock_close_some (set_cp CStop c)) as [c' [b [E [H1 [H2 [H3 [H4 [H5 [H6 [H7 H8]]]]]]]]]]; [exact Hh|].
+    destruct (sock_close_some (set_cp CStop c)) as [c' [b [E [H1 [H2 [H3 [H4 [H5 [H6 [H7 [H8 H9]]]]]]]]]]]; [exact Hh|].
     rewrite E. assert (b = false) by (apply H8; exact Ht). subst b.
     exists c', (enq (EvDelC i) q). fin; auto with life.
   - cbn [negb]. exists (set_cp CStop c), (enq (EvDelC i) q). fin; auto with life; cbn; auto.
@@ -94,7 +94,8 @@ Definition cp_step (c c' : conn) : Prop :=
 
 Definition post (i : nat) (p : list ev) (c : conn) (q : list ev) (c' : conn) (q' : list ev) : Prop :=
   CI i c' (p ++ q') /\ grows q q' /\ (h c' = true -> h c = true) /\ (disc c = true -> disc c' = true) /\
-  (h c = false -> copier_alive c = false -> c' = c) /\ cp_step c c'.
+  (h c = false -> copier_alive c = false -> c' = c) /\ cp_step c c' /\
+  (owned c' = owned c \/ (h c = true /\ owned c' = false)).
 
 Definition sound_op (i : nat) (f : conn -> list ev -> option (conn * list ev)) : Prop :=
   forall c p q, CI i c (p ++ q) -> exists c' q', f c q = Some (c', q') /\ post i p c q c' q'.
@@ -111,12 +112,12 @@ Proof. intros G e H. apply in_app_or in H. destruct H; [apply in_or_app; left; a
 
 Lemma on_disc_ok i c p q : h c = true ->
   exists c' q', on_disc g i c q = Some (c', q') /\ CI i c' (p ++ q') /\ grows q q' /\ h c' = true /\ disc c' = true /\
-                (cp c' = cp c \/ (cp c = CRun /\ cp c' = CStop)).
+                (cp c' = cp c \/ (cp c = CRun /\ cp c' = CStop)) /\ owned c' = owned c.
 Proof.
   intros Hh. unfold on_disc.
   set (c0 := set_topen false (set_disc true c)).
   destruct (copier_alive c0) eqn:Ha.
-  - destruct (finished_closed_ok i c0 q) as [c' [q' [E [H1 [H2 [H3 [H4 [H5 [H6 H7]]]]]]]]];
+  - destruct (finished_closed_ok i c0 q) as [c' [q' [E [H1 [H2 [H3 [H4 [H5 [H6 [H7 H8o]]]]]]]]]];
       [right; reflexivity | exact Ha | left; reflexivity | intros _; reflexivity | intros _; reflexivity |].
     rewrite E. exists c', (enq (EvDelH i) q'). split; [reflexivity|]. split.
     + unfold CI. rewrite H1, H2, H3, H4. cbn. intuition (try discriminate; auto with life).
@@ -125,6 +126,7 @@ Proof.
       * rewrite H2. exact Hh.
       * rewrite H3. reflexivity.
       * unfold copier_alive in Ha. cbn in Ha. rewrite H1. destruct (cp c); try discriminate; auto.
+      * rewrite H8o. reflexivity.
   - exists c0, (enq (EvDelH i) q). split; [reflexivity|]. split.
     + unfold copier_alive in Ha. subst c0. cbn in *. unfold CI. cbn.
       destruct (cp c) eqn:Hc; try discriminate; intuition (try discriminate; auto with life).
@@ -142,14 +144,15 @@ Definition close_disc (i : nat) (c : conn) (q : list ev) : option (conn * list e
 
 Lemma close_disc_ok i c p q : h c = true -> CI i c (p ++ q) ->
   exists c' q', close_disc i c q = Some (c', q') /\ CI i c' (p ++ q') /\ grows q q' /\ h c' = true /\ (disc c = true -> disc c' = true) /\
-    (cp c' = cp c \/ (cp c = CRun /\ cp c' = CStop)).
+    (cp c' = cp c \/ (cp c = CRun /\ cp c' = CStop)) /\ owned c' = owned c.
 Proof.
   intros Hh HC. unfold close_disc.
-  destruct (sock_close_some c Hh) as [c1 [b [E [H1 [H2 [H3 [H4 [H5 [H6 [H7 H8]]]]]]]]]].
+  destruct (sock_close_some c Hh) as [c1 [b [E [H1 [H2 [H3 [H4 [H5 [H6 [H7 [H8 H9]]]]]]]]]]].
   rewrite E. destruct b.
-  - destruct (on_disc_ok i c1 p q H1) as [c' [q' [E2 [K1 [K2 [K3 [K4 K5]]]]]]].
+  - destruct (on_disc_ok i c1 p q H1) as [c' [q' [E2 [K1 [K2 [K3 [K4 [K5 K6]]]]]]]].
     rewrite E2. exists c', q'. split; [reflexivity|].
-    split; [exact K1|]. split; [exact K2|]. split; [exact K3|]. split; [intros _; exact K4|]. rewrite <- H2; exact K5.
+    split; [exact K1|]. split; [exact K2|]. split; [exact K3|]. split; [intros _; exact K4|].
+    split; [rewrite <- H2; exact K5 | congruence].
   - exists c1, q. split; [reflexivity|]. split.
     + unfold CI in *. rewrite H1, H2, H3, H4, (H6 eq_refl).
       destruct HC as [A [B [C [D [E' [F G]]]]]]. repeat split; auto.
@@ -161,7 +164,7 @@ Proof. unfold CI. cbn. tauto. Qed.
 
 Lemma respond_close_ok i c p q : h c = true -> CI i c (p ++ q) ->
   exists c' q', respond_close g i c q = Some (c', q') /\ CI i c' (p ++ q') /\ grows q q' /\ h c' = true /\ (disc c = true -> disc c' = true) /\
-    (cp c' = cp c \/ (cp c = CRun /\ cp c' = CStop)).
+    (cp c' = cp c \/ (cp c = CRun /\ cp c' = CStop)) /\ owned c' = owned c.
 Proof.
   intros Hh HC.
   change (respond_close g i c q) with (close_disc i (set_unacked true (set_wrote true c)) q).
@@ -172,26 +175,27 @@ Qed.
 
 Lemma finished_block_ok i c p q : h c = true -> cp c = CRun -> CI i c (p ++ q) ->
   exists c' q', finished_block g i c q = Some (c', q') /\ CI i c' (p ++ q') /\ grows q q' /\ h c' = true /\ (disc c = true -> disc c' = true) /\
-    cp c' = CStop.
+    cp c' = CStop /\ owned c' = owned c.
 Proof.
   intros Hh Hc HC. unfold finished_block. rewrite Hg. cbn [andb h set_cp]. rewrite Hh. cbn [negb].
   assert (HC1 : CI i (set_cp CStop c) (p ++ enq (EvDelC i) q)).
   { unfold CI in *. cbn. destruct HC as [A [B [C [D [E' [F G]]]]]].
     repeat split; auto with life; try (intros; discriminate).
     intros Hd. exfalso. apply (D Hd). exact Hc. }
-  destruct (close_disc_ok i (set_cp CStop c) p (enq (EvDelC i) q) Hh HC1) as [c' [q' [E [K1 [K2 [K3 [K4 K5]]]]]]].
+  destruct (close_disc_ok i (set_cp CStop c) p (enq (EvDelC i) q) Hh HC1) as [c' [q' [E [K1 [K2 [K3 [K4 [K5 K6]]]]]]]].
   unfold close_disc in E. rewrite E. exists c', q'. split; [reflexivity|].
   split; [exact K1|]. split; [eapply grows_trans; [apply grows_enq | exact K2]|]. split; [exact K3|]. split; [exact K4|].
+  split; [|exact K6].
   cbn in K5. destruct K5 as [K5 | [K5 _]]; [exact K5 | discriminate].
 Qed.
 
 Lemma post_of_ok i p c q c' q' :
   h c = true -> CI i c' (p ++ q') -> grows q q' -> (disc c = true -> disc c' = true) ->
-  (cp c' = cp c \/ (cp c = CRun /\ cp c' = CStop)) -> post i p c q c' q'.
+  (cp c' = cp c \/ (cp c = CRun /\ cp c' = CStop)) -> owned c' = owned c -> post i p c q c' q'.
 Proof.
-  intros Hh H1 H2 H4 H5. unfold post, cp_step.
+  intros Hh H1 H2 H4 H5 H6. unfold post, cp_step.
   split; [exact H1|]. split; [exact H2|]. split; [intros _; exact Hh|]. split; [exact H4|].
-  split; [intros X; rewrite Hh in X; discriminate|]. tauto.
+  split; [intros X; rewrite Hh in X; discriminate|]. split; [tauto | left; exact H6].
 Qed.
 
 Lemma route_ok i c p q : h c = true -> disc c = false -> CI i c (p ++ q) ->
@@ -200,21 +204,26 @@ Proof.
   intros Hh Hd HC. unfold route.
   assert (HCr : CI i (set_routed true c) (p ++ q)) by (unfold CI in *; cbn; tauto).
   destruct (kind g =? 0)%Z.
-  { destruct (respond_close_ok i (set_routed true c) p q Hh HCr) as [c' [q' [E [K1 [K2 [K3 [K4 K5]]]]]]].
+  { destruct (respond_close_ok i (set_routed true c) p q Hh HCr) as [c' [q' [E [K1 [K2 [K3 [K4 [K5 K6]]]]]]]].
     exists c', q'. split; [exact E|]. apply post_of_ok; auto. }
   destruct (kind g =? 1)%Z.
   { eexists; eexists; split; [reflexivity|]. unfold post, cp_step. split.
     - unfold CI in *. cbn. rewrite Hd, Hh. destruct HC as [A [B [C [D [E' [F G]]]]]].
       repeat split; intros; try discriminate; auto.
     - split; [apply grows_app|]. split; [intros _; exact Hh|]. split; [cbn; intros X; exact X|].
-      split; [intros X; rewrite Hh in X; discriminate|]. cbn. right. right. auto. }
+      split; [intros X; rewrite Hh in X; discriminate|]. cbn. split; [right; right; auto | left; reflexivity]. }
   destruct (kind g =? 2)%Z.
   { destruct (total g <=? got (set_routed true c))%Z.
     - assert (HCs : CI i (set_served true (set_routed true c)) (p ++ q)) by (unfold CI in *; cbn; tauto).
-      destruct (respond_close_ok i (set_served true (set_routed true c)) p q Hh HCs) as [c' [q' [E [K1 [K2 [K3 [K4 K5]]]]]]].
+      destruct (respond_close_ok i (set_served true (set_routed true c)) p q Hh HCs) as [c' [q' [E [K1 [K2 [K3 [K4 [K5 K6]]]]]]]].
       exists c', q'. split; [exact E|]. apply post_of_ok; auto.
     - eexists; eexists; split; [reflexivity|]. apply post_of_ok; auto with life. }
-  eexists; eexists; split; [reflexivity|]. apply post_of_ok; auto with life.
+  destruct (kind g =? 3)%Z.
+  { eexists; eexists; split; [reflexivity|]. apply post_of_ok; auto with life. }
+  eexists; eexists; split; [reflexivity|]. unfold post, cp_step. split.
+  - unfold CI in *; cbn; tauto.
+  - split; [apply grows_refl|]. split; [intros _; exact Hh|]. split; [cbn; intros X; exact X|].
+    split; [intros X; rewrite Hh in X; discriminate|]. cbn. split; [left; reflexivity | right; split; [exact Hh | reflexivity]].
 Qed.
 
 Lemma feed_ok i n : sound_op i (feed g i n).
@@ -235,22 +244,22 @@ Proof.
   destruct (routed c2) eqn:Hr; cbn [negb].
   - destruct ((kind g =? 2)%Z && negb (served c2) && (total g <=? got c2)%Z).
     + assert (HCs : CI i (set_served true c2) (p ++ q)) by (unfold CI in *; cbn; tauto).
-      destruct (respond_close_ok i (set_served true c2) p q Hh HCs) as [c' [q' [E [K1 [K2 [K3 [K4 K5]]]]]]].
+      destruct (respond_close_ok i (set_served true c2) p q Hh HCs) as [c' [q' [E [K1 [K2 [K3 [K4 [K5 K6]]]]]]]].
       exists c', q'. split; [exact E|]. apply post_of_ok; auto.
     + exists c2, q. split; [reflexivity|]. apply post_of_ok; auto with life.
   - destruct (hlen g <=? got c2)%Z.
     + destruct (route_ok i c2 p q Hh Hd HC2) as [c' [q' [E P]]].
       exists c', q'. split; [exact E|].
-      unfold post, cp_step in *. cbn in P. destruct P as [P1 [P2 [P3 [P4 [P5 P6]]]]].
+      unfold post, cp_step in *. cbn in P. destruct P as [P1 [P2 [P3 [P4 [P5 [P6 P7]]]]]].
       split; [exact P1|]. split; [exact P2|]. split; [exact P3|]. split; [exact P4|].
-      split; [intros X; rewrite Hh in X; discriminate|]. exact P6.
+      split; [intros X; rewrite Hh in X; discriminate|]. split; [exact P6 | exact P7].
     + exists c2, q. split; [reflexivity|]. apply post_of_ok; auto with life.
 Qed.
 
 Lemma post_of_disc i p c q c' q' :
   h c = true -> CI i c' (p ++ q') -> grows q q' -> disc c' = true ->
-  (cp c' = cp c \/ (cp c = CRun /\ cp c' = CStop)) -> post i p c q c' q'.
-Proof. intros Hh H1 H2 H4 H5. apply post_of_ok; auto. Qed.
+  (cp c' = cp c \/ (cp c = CRun /\ cp c' = CStop)) -> owned c' = owned c -> post i p c q c' q'.
+Proof. intros Hh H1 H2 H4 H5 H6. apply post_of_ok; auto. Qed.
 
 Lemma ack_ok i : sound_op i (ack g i).
 Proof.
@@ -259,7 +268,7 @@ Proof.
   set (c1 := set_unacked false c).
   assert (HC1 : CI i c1 (p ++ q)) by (unfold CI in *; cbn; tauto).
   destruct (tclosing c1 && negb (disc c1)).
-  - destruct (on_disc_ok i c1 p q Hh) as [c' [q' [E [K1 [K2 [K3 [K4 K5]]]]]]].
+  - destruct (on_disc_ok i c1 p q Hh) as [c' [q' [E [K1 [K2 [K3 [K4 [K5 K6]]]]]]]].
     exists c', q'. split; [exact E|]. apply post_of_disc; auto.
   - exists c1, q. split; [reflexivity|]. apply post_of_ok; auto with life.
 Qed.
@@ -269,7 +278,7 @@ Proof.
   intros c p q HC. unfold drop.
   destruct (h c) eqn:Hh; cbn [negb orb]; [|exists c, q; split; [reflexivity | apply post_id; exact HC]].
   destruct (disc c) eqn:Hd; [exists c, q; split; [reflexivity | apply post_id; exact HC]|].
-  destruct (on_disc_ok i c p q Hh) as [c' [q' [E [K1 [K2 [K3 [K4 K5]]]]]]].
+  destruct (on_disc_ok i c p q Hh) as [c' [q' [E [K1 [K2 [K3 [K4 [K5 K6]]]]]]]].
   exists c', q'. split; [exact E|]. apply post_of_disc; auto.
 Qed.
 
@@ -277,7 +286,7 @@ Lemma app_close_ok i : sound_op i (app_close g i).
 Proof.
   intros c p q HC. unfold app_close.
   destruct (h c) eqn:Hh; cbn [negb]; [|exists c, q; split; [reflexivity | apply post_id; exact HC]].
-  destruct (close_disc_ok i c p q Hh HC) as [c' [q' [E [K1 [K2 [K3 [K4 K5]]]]]]].
+  destruct (close_disc_ok i c p q Hh HC) as [c' [q' [E [K1 [K2 [K3 [K4 [K5 K6]]]]]]]].
   unfold close_disc in E. exists c', q'. split; [exact E|]. apply post_of_ok; auto.
 Qed.
 
@@ -302,13 +311,13 @@ Proof.
     set (c1 := set_cleft (cleft c - n) (set_payload (payload c + n) (set_unacked (unacked c || (0 <? n)%Z) c))).
     assert (HC1 : CI i c1 (p ++ q)) by (unfold CI in *; cbn; tauto).
     destruct (cleft c1 =? 0)%Z.
-    + destruct (finished_block_ok i c1 p q Hh Hc HC1) as [c' [q' [E [K1 [K2 [K3 [K4 K5]]]]]]].
+    + destruct (finished_block_ok i c1 p q Hh Hc HC1) as [c' [q' [E [K1 [K2 [K3 [K4 [K5 K6]]]]]]]].
       assert (X : cp c' = cp c \/ cp c = CRun /\ cp c' = CStop) by (right; split; [exact Hc | exact K5]).
       exists c', q'. split; [exact E|]. split; [apply post_of_ok; auto | tauto].
     + exists c1, (q ++ [EvNext i]). split; [reflexivity|]. split.
       * apply post_of_ok; auto with life. eapply CI_grows; [exact HC1|]. apply grows_app_both. apply grows_app.
       * left. reflexivity.
-  - destruct (finished_block_ok i c p q Hh Hc HC) as [c' [q' [E [K1 [K2 [K3 [K4 K5]]]]]]].
+  - destruct (finished_block_ok i c p q Hh Hc HC) as [c' [q' [E [K1 [K2 [K3 [K4 [K5 K6]]]]]]]].
     assert (X : cp c' = cp c \/ cp c = CRun /\ cp c' = CStop) by (right; split; [exact Hc | exact K5]).
     exists c', q'. split; [exact E|]. split; [apply post_of_ok; auto | tauto].
 Qed.
@@ -322,7 +331,7 @@ Proof.
   intros Hh HC. unfold delete_h.
   set (c1 := set_topen false (set_h false c)).
   destruct (copier_alive c1) eqn:Ha.
-  - destruct (finished_closed_ok i c1 q) as [c' [q' [E [H1 [H2 [H3 [H4 [H5 [H6 H7]]]]]]]]];
+  - destruct (finished_closed_ok i c1 q) as [c' [q' [E [H1 [H2 [H3 [H4 [H5 [H6 [H7 H8o]]]]]]]]]];
       [left; reflexivity | exact Ha | right; reflexivity | intros _; reflexivity | intros _; reflexivity |].
     exists c', q'. split; [exact E|].
     assert (Hcp : cp c' = cp c \/ cp c = CRun /\ cp c' = CStop).
@@ -331,7 +340,7 @@ Proof.
     + unfold post, cp_step. split.
       * unfold CI. rewrite H1, H2, H3, H4. cbn. repeat split; intros; try discriminate; auto with life.
       * split; [exact H6|]. split; [intros _; exact Hh|]. split; [rewrite H3; cbn; intros X; exact X|].
-        split; [intros X; rewrite Hh in X; discriminate|]. tauto.
+        split; [intros X; rewrite Hh in X; discriminate|]. split; [tauto | left; rewrite H8o; reflexivity].
     + tauto.
     + rewrite H2. reflexivity.
   - exists c1, q. split; [reflexivity|].
@@ -341,7 +350,7 @@ Proof.
       * unfold CI in *. cbn. destruct (cp c) eqn:Hc; try discriminate;
           repeat split; intros; try discriminate; auto; apply HC; auto.
       * split; [apply grows_refl|]. split; [intros _; exact Hh|]. split; [cbn; intros X; exact X|].
-        split; [intros X; rewrite Hh in X; discriminate|]. left. reflexivity.
+        split; [intros X; rewrite Hh in X; discriminate|]. split; left; reflexivity.
     + left. reflexivity.
     + reflexivity.
 Qed.
@@ -366,20 +375,21 @@ Proof.
     + unfold CI in *. cbn. destruct HC as [A [B [C [D [E' [F G]]]]]]. repeat split; intros; try discriminate; auto.
     + split; [apply grows_refl|]. split; [cbn; intros X; exact X|]. split; [cbn; intros X; exact X|].
       split; [intros _ X; unfold copier_alive in X; rewrite Hc in X; discriminate|].
-      cbn. right. right. right. split; [exact Hc | reflexivity].
+      cbn. split; [right; right; right; split; [exact Hc | reflexivity] | left; reflexivity].
   - right. right. split; [exact Hc | reflexivity].
 Qed.
 
 (* ---------------------------------------------------------------- the world *)
 Definition Inv (w : world) (p : list ev) : Prop :=
   (forall i c, nth_error (conns w) i = Some c -> CI i c (p ++ queue w)) /\
-  (srv w = false -> forall i c, nth_error (conns w) i = Some c -> h c = false).
+  (srv w = false -> forall i c, nth_error (conns w) i = Some c -> owned c = true -> h c = false).
 
 Definition released (c : conn) : Prop := h c = false /\ copier_alive c = false.
 
 (* how one step may change a connection *)
 Definition cstep (c c' : conn) : Prop :=
-  (h c' = true -> h c = true) /\ (disc c = true -> disc c' = true) /\ (released c -> c' = c) /\ cp_step c c'.
+  (h c' = true -> h c = true) /\ (disc c = true -> disc c' = true) /\ (released c -> c' = c) /\ cp_step c c' /\
+  (owned c' = owned c \/ (h c = true /\ owned c' = false)).
 
 Definition cstep_ev (c c' : conn) : Prop :=
   cstep c c' /\ (cp c' = cp c \/ (cp c = CRun /\ cp c' = CStop) \/ (cp c = CStop /\ cp c' = CDead)).
@@ -391,8 +401,8 @@ Proof. split; [apply cstep_refl | left; reflexivity]. Qed.
 
 Lemma post_cstep i p c q c' q' : post i p c q c' q' -> cstep c c'.
 Proof.
-  unfold post, cstep, released. intros [_ [_ [A [B [C D]]]]].
-  split; [exact A|]. split; [exact B|]. split; [intros [X Y]; apply C; assumption | exact D].
+  unfold post, cstep, released. intros [_ [_ [A [B [C [D E]]]]]].
+  split; [exact A|]. split; [exact B|]. split; [intros [X Y]; apply C; assumption | split; [exact D | exact E]].
 Qed.
 
 Lemma post_ev_cstep i p c q c' q' : post_ev i p c q c' q' -> cstep_ev c c'.
@@ -431,8 +441,10 @@ Proof.
            eapply CI_grows; [apply (HI j cj Hj) | apply grows_app_both; exact G].
       * intros Hs j cj Hj. destruct (Nat.eq_dec i j) as [<-|Hne].
         -- rewrite (nth_error_list_set_eq _ _ _ _ En) in Hj. injection Hj as <-.
-           destruct P as [_ [_ [P3 _]]]. destruct (h c') eqn:X; [|reflexivity].
-           rewrite (HS Hs i c En) in P3. discriminate (P3 eq_refl).
+           intros Ho. destruct P as [_ [_ [P3 [_ [_ [_ P7]]]]]].
+           destruct P7 as [P7|[_ P7]]; [|congruence].
+           destruct (h c') eqn:X; [|reflexivity].
+           rewrite (HS Hs i c En) in P3 by congruence. discriminate (P3 eq_refl).
         -- rewrite (nth_error_list_set_neq _ _ _ _ Hne) in Hj. apply (HS Hs j cj Hj).
     + intros j cj Hj. destruct (Nat.eq_dec i j) as [<-|Hne].
       * exists c'. split; [apply (nth_error_list_set_eq _ _ _ _ En)|]. right.
@@ -577,7 +589,8 @@ Proof.
   intros H. apply in_or_app. destruct (is_del e) eqn:X; [left | right]; apply filter_In; split; auto. rewrite X; reflexivity.
 Qed.
 
-Definition closed (w : world) (c : conn) : Prop := disc c = true \/ srv w = false.
+(* both sides closed: the transport reported the disconnect, or the HTTP socket is already gone (destroyed with the server) *)
+Definition closed (c : conn) : Prop := disc c = true \/ h c = false.
 
 (* one turn: the invariant survives, and every connection whose two sides were closed is released *)
 Lemma turn_ok w : Inv w [] ->
@@ -585,7 +598,7 @@ Lemma turn_ok w : Inv w [] ->
     (forall j c, nth_error (conns w) j = Some c ->
        exists c', nth_error (conns w') j = Some c' /\
          (h c' = true -> h c = true) /\ (disc c = true -> disc c' = true) /\ (released c -> c' = c) /\
-         (closed w c -> released c')).
+         (closed c -> released c')).
 Proof.
   intros [HA HB]. unfold turn.
   set (dd := filter is_del (queue w)). set (rest := filter (fun e => negb (is_del e)) (queue w)).
@@ -608,7 +621,7 @@ Proof.
   assert (R1 : released c1).
   { specialize (HA j c Hj). destruct HA as [I1 [I2 [I3 [I4 _]]]]. cbn [app] in *.
     assert (Hh0 : h c = false \/ (disc c = true /\ h c = true)).
-    { destruct (h c) eqn:X; [right | left; reflexivity]. destruct Hcl as [Y|Y]; [auto|]. rewrite (HB Y j c Hj) in X. discriminate. }
+    { destruct (h c) eqn:X; [right | left; reflexivity]. destruct Hcl as [Y|Y]; [auto | congruence]. }
     assert (Hnr : cp c <> CRun).
     { destruct Hh0 as [X|[X _]]; [intros Y; rewrite (I1 Y) in X; discriminate | apply I4; exact X]. }
     destruct (A5 Hnr) as [C1 [C2 [C3 C4]]].
@@ -635,62 +648,42 @@ Proof.
   unfold finished_closed. rewrite Hg. reflexivity.
 Qed.
 
-Lemma remove_ev_keeps e x q : In x q -> x <> e -> In x (remove_ev e q).
-Proof.
-  intros H Hne. unfold remove_ev. apply filter_In. split; [exact H|].
-  destruct (ev_eqb e x) eqn:X; [apply ev_eqb_eq in X; congruence | reflexivity].
-Qed.
-
-Lemma CI_dead_mono j c q q' :
-  h c = false -> CI j c q -> (forall e, In e q -> (forall k, e <> EvDelH k) -> In e q') -> CI j c q'.
-Proof.
-  unfold CI. intros Hh [A [B [C [D [E' [F G]]]]]] M.
-  split; [exact A|]. split; [intros X; apply M; [apply B; exact X | intros k; discriminate]|].
-  split; [intros _ X; rewrite Hh in X; discriminate | tauto].
-Qed.
-
 Lemma destroy_from_ok cs : forall i q,
   (forall k c, nth_error cs k = Some c -> CI (i + k) c q) ->
-  exists cs' q', destroy_from g i cs q = Some (cs', q') /\ length cs' = length cs /\
-    (forall e, In e q -> (forall k, e <> EvDelH k) -> In e q') /\
+  exists cs' q', destroy_from g i cs q = Some (cs', q') /\ length cs' = length cs /\ grows q q' /\
     (forall k c, nth_error cs k = Some c ->
-       exists c', nth_error cs' k = Some c' /\ h c' = false /\ CI (i + k) c' q' /\
-                  (disc c = true -> disc c' = true) /\ (released c -> c' = c)).
+       exists c', nth_error cs' k = Some c' /\ (owned c' = true -> h c' = false) /\ CI (i + k) c' q' /\
+                  (h c' = true -> h c = true) /\ (disc c = true -> disc c' = true) /\ (released c -> c' = c)).
 Proof.
   induction cs as [|c r IH]; intros i q HC.
-  - exists [], q. split; [reflexivity|]. split; [reflexivity|]. split; [auto|]. intros [|k] c H; discriminate.
+  - exists [], q. split; [reflexivity|]. split; [reflexivity|]. split; [apply grows_refl|]. intros [|k] c H; discriminate.
   - cbn [destroy_from].
     assert (HC0 : CI i c q) by (specialize (HC 0 c eq_refl); rewrite Nat.add_0_r in HC; exact HC).
-    set (res := if h c then delete_h g i c (remove_ev (EvDelH i) q) else Some (c, q)).
-    assert (Hres : exists c1 q1, res = Some (c1, q1) /\ h c1 = false /\ CI i c1 q1 /\
-                     (disc c = true -> disc c1 = true) /\ (released c -> c1 = c) /\
-                     (forall e, In e q -> e <> EvDelH i -> In e q1)).
-    { subst res. destruct (h c) eqn:Hh.
+    set (res := if h c && owned c then delete_h g i c q else Some (c, q)).
+    assert (Hres : exists c1 q1, res = Some (c1, q1) /\ (owned c1 = true -> h c1 = false) /\ CI i c1 q1 /\
+                     (h c1 = true -> h c = true) /\ (disc c = true -> disc c1 = true) /\ (released c -> c1 = c) /\ grows q q1).
+    { subst res. destruct (h c) eqn:Hh; [destruct (owned c) eqn:Ho|]; cbn [andb].
       - rewrite delete_h_eq. destruct HC0 as [A [B [C [D [E' [F G]]]]]].
         destruct (copier_alive c) eqn:Ha; eexists; eexists; (split; [reflexivity|]); (split; [reflexivity|]).
         + split; [unfold CI; cbn; repeat split; intros; try discriminate; auto with life|].
-          split; [cbn; auto|]. split; [intros [X _]; congruence|].
-          intros e He Hne. apply enq_in2. apply remove_ev_keeps; assumption.
+          split; [cbn; intros X; discriminate|]. split; [cbn; auto|]. split; [intros [X _]; congruence | apply grows_enq].
         + split.
           * unfold CI. cbn. unfold copier_alive in Ha.
             destruct (cp c) eqn:Hc; try discriminate; repeat split; intros; try discriminate; auto.
-          * split; [cbn; auto|]. split; [intros [X _]; congruence|].
-            intros e He Hne. apply remove_ev_keeps; assumption.
-      - exists c, q. split; [reflexivity|]. split; [exact Hh|]. split; [exact HC0|]. auto. }
-    destruct Hres as [c1 [q1 [E1 [H1 [H2 [H3 [H4 H5]]]]]]]. fold res. rewrite E1.
+          * split; [cbn; intros X; discriminate|]. split; [cbn; auto|]. split; [intros [X _]; congruence | apply grows_refl].
+      - exists c, q. split; [reflexivity|]. split; [intros X; congruence|]. split; [exact HC0|]. split; [intros X; congruence|]. split; [auto|]. split; [auto|]. apply grows_refl.
+      - exists c, q. split; [reflexivity|]. split; [intros _; exact Hh|]. split; [exact HC0|]. split; [intros X; congruence|]. split; [auto|]. split; [auto|]. apply grows_refl. }
+    destruct Hres as [c1 [q1 [E1 [H1 [H2 [H3 [H4 [H5 H6]]]]]]]]. fold res. rewrite E1.
     assert (HCr : forall k c0, nth_error r k = Some c0 -> CI (S i + k) c0 q1).
     { intros k c0 Hk. specialize (HC (S k) c0 Hk). rewrite Nat.add_succ_r in HC. cbn [plus].
-      destruct HC as [A [B [C [D [E' [F G]]]]]].
-      split; [exact A|]. split; [intros X; apply H5; [apply B; exact X | discriminate]|].
-      split; [intros X Y; apply H5; [apply C; assumption | intros Z; injection Z; lia] | tauto]. }
+      eapply CI_grows; [exact HC | exact H6]. }
     destruct (IH (S i) q1 HCr) as [r' [q' [E2 [HL [HM Hk]]]]]. rewrite E2.
     exists (c1 :: r'), q'. split; [reflexivity|]. split; [cbn; congruence|].
-    split.
-    { intros e He Hne. apply HM; [apply H5; [exact He | apply Hne] | exact Hne]. }
+    split; [eapply grows_trans; [exact H6 | exact HM]|].
     intros [|k] c0 H0.
     + cbn in H0. injection H0 as <-. exists c1. split; [reflexivity|]. split; [exact H1|].
-      split; [rewrite Nat.add_0_r; eapply CI_dead_mono; [exact H1 | exact H2 | exact HM]|]. auto.
-    + cbn in H0. destruct (Hk k c0 H0) as [c' [X1 [X2 [X3 [X4 X5]]]]].
+      split; [rewrite Nat.add_0_r; eapply CI_grows; [exact H2 | exact HM]|]. auto.
+    + cbn in H0. destruct (Hk k c0 H0) as [c' [X1 [X2 [X3 [X4 [X5 X6]]]]]].
       exists c'. split; [exact X1|]. split; [exact X2|]. split; [rewrite Nat.add_succ_r; exact X3|]. auto.
 Qed.
 
@@ -703,7 +696,7 @@ Lemma lstep_ok o w : Inv w [] ->
     (forall j c, nth_error (conns w) j = Some c ->
        exists c', nth_error (conns w') j = Some c' /\
          (h c' = true -> h c = true) /\ (disc c = true -> disc c' = true) /\ (released c -> c' = c) /\
-         (o = LTurn -> closed w c -> released c')).
+         (o = LTurn -> closed c -> released c')).
 Proof.
   intros HI.
   assert (Hop : forall i f, sound_op i f ->
@@ -738,8 +731,8 @@ Proof.
         -- intros _ j c' Hj'. destruct (nth_error_same_length (conns w) cs' j c' (eq_sym HL) Hj') as [c Hj].
            destruct (Hk j c Hj) as [c'' [Y1 [Y2 _]]]. rewrite Hj' in Y1. injection Y1 as <-. exact Y2.
       * split; [reflexivity|]. cbn [conns].
-        intros j c Hj. destruct (Hk j c Hj) as [c' [Y1 [Y2 [Y3 [Y4 Y5]]]]].
-        exists c'. split; [exact Y1|]. split; [intros X; rewrite Y2 in X; discriminate|]. split; [exact Y4|]. split; [exact Y5|]. discriminate.
+        intros j c Hj. destruct (Hk j c Hj) as [c' [Y1 [Y2 [Y3 [Y4 [Y5 Y6]]]]]].
+        exists c'. split; [exact Y1|]. split; [exact Y4|]. split; [exact Y5|]. split; [exact Y6|]. discriminate.
     + exists w. split; [reflexivity|]. split; [exact HI|]. split; [auto|].
       intros j c Hj. exists c. split; [exact Hj|]. split; [auto|]. split; [auto|]. split; [auto|]. discriminate.
   - destruct (Hop i (app_close g i) (app_close_ok i)) as [w' [E [A [B C]]]]. exists w'. split; [exact E|]. split; [exact A|]. split; [exact B|].
@@ -781,16 +774,16 @@ Lemma run_world_ok g (Hg : guard g = true) ops : forall w, Inv w [] ->
   exists w', run_world g w ops = Some w' /\ Inv w' [] /\ (srv w = false -> srv w' = false) /\
     (forall j c, nth_error (conns w) j = Some c ->
        exists c', nth_error (conns w') j = Some c' /\
-         (disc c = true -> disc c' = true) /\ (released c -> released c')).
+         (disc c = true -> disc c' = true) /\ (released c -> released c') /\ (h c' = true -> h c = true)).
 Proof.
   induction ops as [|o r IH]; intros w HI.
   - exists w. split; [reflexivity|]. split; [exact HI|]. split; [auto|]. intros j c Hj. exists c. auto.
   - destruct (lstep_ok g Hg o w HI) as [w1 [E [HI1 [Hs Hc]]]].
     destruct (IH w1 HI1) as [w' [E' [HI' [Hs' Hc']]]].
     exists w'. cbn [run_world]. rewrite E. split; [exact E'|]. split; [exact HI'|]. split; [auto|].
-    intros j c Hj. destruct (Hc j c Hj) as [c1 [Hj1 [_ [A2 [A3 _]]]]].
-    destruct (Hc' j c1 Hj1) as [c' [Hj' [B1 B2]]].
-    exists c'. split; [exact Hj'|]. split; [auto|]. intros R. apply B2. rewrite (A3 R). exact R.
+    intros j c Hj. destruct (Hc j c Hj) as [c1 [Hj1 [A1 [A2 [A3 _]]]]].
+    destruct (Hc' j c1 Hj1) as [c' [Hj' [B1 [B2 B3]]]].
+    exists c'. split; [exact Hj'|]. split; [auto|]. split; [|auto]. intros R. apply B2. rewrite (A3 R). exact R.
 Qed.
 
 Theorem schedule_never_touches_deleted g ops : guard g = true -> exists w, run_world g world0 ops = Some w /\ Inv w [].
@@ -820,7 +813,7 @@ Qed.
    server object is gone -- then whatever happens next, after the first event-loop turn the HTTP socket, its TCP
    socket, the copier and the file are gone, and stay gone *)
 Theorem released_after_close g (Hg : guard g = true) ops1 w j c :
-  run_world g world0 ops1 = Some w -> nth_error (conns w) j = Some c -> closed w c ->
+  run_world g world0 ops1 = Some w -> nth_error (conns w) j = Some c -> closed c ->
   forall ops2 ops3, exists w' c',
     run_world g w (ops2 ++ LTurn :: ops3) = Some w' /\ nth_error (conns w') j = Some c' /\ released c'.
 Proof.
@@ -828,15 +821,24 @@ Proof.
   assert (HI : Inv w []).
   { destruct (schedule_never_touches_deleted g ops1 Hg) as [w0 [E0 HI0]]. congruence. }
   destruct (run_world_ok g Hg ops2 w HI) as [w2 [E2 [HI2 [Hs2 Hc2]]]].
-  destruct (Hc2 j c Hj) as [c2 [Hj2 [A1 _]]].
-  assert (Hcl2 : closed w2 c2) by (destruct Hcl as [X|X]; [left; auto | right; auto]).
+  destruct (Hc2 j c Hj) as [c2 [Hj2 [A1 [_ A3]]]].
+  assert (Hcl2 : closed c2).
+  { destruct Hcl as [X|X]; [left; auto | right]. destruct (h c2) eqn:Y; [rewrite (A3 eq_refl) in X; discriminate | reflexivity]. }
   destruct (lstep_ok g Hg LTurn w2 HI2) as [w3 [E3 [HI3 [_ Hc3]]]].
   destruct (Hc3 j c2 Hj2) as [c3 [Hj3 [_ [_ [_ R3]]]]].
   specialize (R3 eq_refl Hcl2).
   destruct (run_world_ok g Hg ops3 w3 HI3) as [w4 [E4 [_ [_ Hc4]]]].
-  destruct (Hc4 j c3 Hj3) as [c4 [Hj4 [_ R4]]].
+  destruct (Hc4 j c3 Hj3) as [c4 [Hj4 [_ [R4 _]]]].
   exists w4, c4. split; [|split; [exact Hj4 | apply R4; exact R3]].
   rewrite run_world_app, E2. cbn [run_world]. rewrite E3. exact E4.
+Qed.
+
+(* destroying the server closes every connection that is still its own *)
+Theorem destroyed_server_closes_owned g (Hg : guard g = true) ops w j c :
+  run_world g world0 ops = Some w -> srv w = false -> nth_error (conns w) j = Some c -> owned c = true -> closed c.
+Proof.
+  intros E Hs Hj Ho. destruct (schedule_never_touches_deleted g ops Hg) as [w0 [E0 [_ HB]]].
+  assert (w0 = w) by congruence. subst w0. right. apply (HB Hs j c Hj Ho).
 Qed.
 
 (* counts return to their idle values *)
@@ -852,7 +854,7 @@ Proof.
 Qed.
 
 Theorem idle_after_all_closed g (Hg : guard g = true) ops1 w :
-  run_world g world0 ops1 = Some w -> (forall j c, nth_error (conns w) j = Some c -> closed w c) ->
+  run_world g world0 ops1 = Some w -> (forall j c, nth_error (conns w) j = Some c -> closed c) ->
   exists w', run_world g w [LTurn] = Some w' /\ live_copiers w' = 0%Z /\
              (forall j c', nth_error (conns w') j = Some c' -> h c' = false).
 Proof.
@@ -874,6 +876,15 @@ Example demo_closed_not_released :
   exists w c, run_world g_demo world0 ops_demo = Some w /\ nth_error (conns w) 0 = Some c /\
               disc c = true /\ h c = true /\ cp c = CStop /\ payload c = 65536%Z.
 Proof. eexists. eexists. vm_compute. repeat split; reflexivity. Qed.
+
+(* a socket adopted by its handler (what ProxyHandler does) outlives the server and is released when its peer goes *)
+Example adopted_socket_outlives_server :
+  let g := mkCfg 4 0 25 25 25 true in
+  exists w1 c1 w2 c2,
+    run_world g world0 [LOpen; LFeed 0 25; LDestroy; LTurn] = Some w1 /\ nth_error (conns w1) 0 = Some c1 /\
+    h c1 = true /\ owned c1 = false /\
+    run_world g w1 [LDrop 0; LTurn] = Some w2 /\ nth_error (conns w2) 0 = Some c2 /\ h c2 = false.
+Proof. do 4 eexists. vm_compute. repeat split; reflexivity. Qed.
 
 (* without the existence check in the copier-finished lambda (the code before the repair of FilesystemHandler) the
    model does touch a deleted socket: destroying the server during a transfer *)
